@@ -108,6 +108,10 @@ def _observer_classes():
             super().__init__(dispatcher, subscribe=subscribe)
             self.log = []
 
+        def __len__(self):
+            # a container-like user observer: falsy while it has recorded nothing (it is an observer all the same)
+            return len(self.log)
+
         leave_at_next_update = False
 
         def update(self, scheduled_operation):
